@@ -73,6 +73,14 @@ def check(run, prog, tier):
             kind = "declined"
             ok = not sends and not writes and not removals
             msg = f"returns False with {len(sends)} answer(s), {len(writes)} store write(s)"
+            # "a running instance" is one that was started and not stopped (`_task` set / cleared by start() / stop()): an
+            # instance is not declined for what has become of the task object itself - a non-cyclic offer task ends normally
+            # after its repetition phase while the instance stays offered
+            asks = [c for c, v, _, _ in p.conds if contains(c, lambda s: s[0] == "call" and s[1][0] in ("attr", "bound") and s[1][1] == ("attr", me, "_task"))]
+            if ok and asks:
+                ok = False
+                msg = (f"declines on {show(asks[0])[:60]}: whether the instance is running is `_task is None`, not a state of the task object "
+                       "(done() is also true for the offer task of a non-cyclic instance that ended normally - its subscribers get a Nack)")
         elif stopsub == [True]:
             kind = "stop-subscribe"
             # (that it ends exactly the named subscription is C06-H1; here: no answer, nothing recorded)
